@@ -229,9 +229,22 @@ ModVals(oa, ob) ==
        (IF a.int /\ b.int THEN (IF b.n = 0 THEN RErr ELSE R(IntV(TruncMod(a.n, b.n)))) ELSE RUnspec)
   ELSE RErr
 
-\* `==` on values: spelling-based in the code; coincides with value equality on the domain except int-valued floats
+DigitAtoms == <<"0", "1", "2", "3", "4", "5", "6", "7", "8", "9">>
+RECURSIVE NatAtoms(_)
+NatAtoms(n) == IF n < 10 THEN <<DigitAtoms[n + 1]>> ELSE Append(NatAtoms(n \div 10), DigitAtoms[(n % 10) + 1])
+IntAtoms(n) == IF n < 0 THEN <<"-">> \o NatAtoms(-n) ELSE NatAtoms(n)
+DigitVal(a) == CHOOSE d \in 0..9 : DigitAtoms[d + 1] = a
+IsDigitAtom(a) == \E d \in 0..9 : DigitAtoms[d + 1] = a
+\* the spelling of a scalar that is no string, where the model knows it (floats are spelled by the implementation)
+Spelled(v) == CASE v.k = "num" /\ v.int -> IntAtoms(v.n) [] v.k = "bool" -> (IF v.b THEN <<"t", "r", "u", "e">> ELSE <<"f", "a", "l", "s", "e">>)
+                [] v.k = "null" -> <<"n", "u", "l", "l">> [] OTHER -> <<"?">>
+\* `==` on values: spelling-based in the code; coincides with value equality on the domain except int-valued floats, and
+\* except a STRING compared with a number / boolean / null of the same spelling ("0" == 0), which the documentation
+\* does not decide
 ScalarEq(a, b) ==
   IF a.k = "num" /\ b.k = "num" /\ a.int # b.int /\ a.n * b.d = b.n * a.d THEN "unspec"   \* 2 vs 2.0: by spelling
+  ELSE IF a.k = "str" /\ b.k # "str" THEN (IF a.s = Spelled(b) \/ (b.k = "num" /\ ~b.int /\ \E i \in DOMAIN a.s : IsDigitAtom(a.s[i])) THEN "unspec" ELSE "f")
+  ELSE IF b.k = "str" /\ a.k # "str" THEN (IF b.s = Spelled(a) \/ (a.k = "num" /\ ~a.int /\ \E i \in DOMAIN b.s : IsDigitAtom(b.s[i])) THEN "unspec" ELSE "f")
   ELSE IF a.k = "num" /\ b.k = "num" THEN (IF a.n * b.d = b.n * a.d THEN "t" ELSE "f")
   ELSE IF a.k # b.k THEN "f"
   ELSE IF VEq(a, b) THEN "t" ELSE "f"
@@ -290,7 +303,7 @@ SplitStr(s, sep) ==
   ELSE LET i == CHOOSE x \in I : \A y \in I : x <= y IN <<SubSeq(s, 1, i)>> \o SplitStr(SubSeq(s, i + Len(sep) + 1, Len(s)), sep)
 
 \* ---------------------------------------------------------------- the evaluator
-RECURSIVE Ev(_,_), EvMore(_,_)
+RECURSIVE Ev(_,_), EvMore(_,_), EvExt(_,_)
 
 \* doCrossFunc (operators.go): LHS-major product on context s; RHS re-evaluated for every LHS result;
 \* operand values are read when the calculation runs (the code holds node pointers).
@@ -596,7 +609,8 @@ Ev(e, s) ==
          ELSE IF \E i \in DOMAIN s.ctx : ValOf(a.doc, s.ctx[i]).k \notin {"str", "null"} THEN Fail(s, "err")
          ELSE IF ~a.some \/ a.v.k # "str" \/ a.v.s = <<>> THEN Fail(s, "unspec")
          ELSE [s EXCEPT !.doc = a.doc, !.ctx = FlatMap(LAMBDA c : LET v == ValOf(a.doc, c) IN
-                 IF v.k = "null" THEN <<>> ELSE <<Det(SeqV([j \in DOMAIN SplitStr(v.s, a.v.s) |-> StrV(SplitStr(v.s, a.v.s)[j])]))>>, s.ctx)]
+                 IF v.k = "null" THEN <<>> ELSE IF v.s = <<>> THEN <<Det(SeqV(<<>>))>>       \* the empty string has no pieces
+                 ELSE <<Det(SeqV([j \in DOMAIN SplitStr(v.s, a.v.s) |-> StrV(SplitStr(v.s, a.v.s)[j])]))>>, s.ctx)]
     [] e.op = "REDUCE" ->
          LET Src == Ev(e.l.l, s) IN IF ~Ok(Src) THEN Src ELSE
          LET Acc0 == Ev(e.r.l, [s EXCEPT !.doc = Src.doc]) IN IF ~Ok(Acc0) THEN Acc0 ELSE
@@ -700,6 +714,79 @@ EvMore(e, s) ==
                      sorted == SortBy(pairs, LAMBDA pr : pr[1], Leq)
                      vNow == ValOf(ks.doc, c)
                  IN Emit([acc EXCEPT !.doc = ks.doc], <<Det(SeqV([i \in DOMAIN sorted |-> vNow.e[sorted[i][2]]]))>>))
+    [] OTHER -> EvExt(e, s)
+
+\* ---------------------------------------------------------------- tag, kind, to_string, to_number, pivot, setpath, delpaths
+Atoms(str) == str        \* strings are written as tuples of one-character atoms
+TagOf(v) == CASE v.k = "null" -> <<"!", "!", "n", "u", "l", "l">> [] v.k = "bool" -> <<"!", "!", "b", "o", "o", "l">>
+              [] v.k = "num" -> (IF v.int THEN <<"!", "!", "i", "n", "t">> ELSE <<"!", "!", "f", "l", "o", "a", "t">>)
+              [] v.k = "str" -> <<"!", "!", "s", "t", "r">> [] v.k = "seq" -> <<"!", "!", "s", "e", "q">> [] v.k = "map" -> <<"!", "!", "m", "a", "p">>
+KindOf(v) == IF v.k = "seq" THEN <<"s", "e", "q">> ELSE IF v.k = "map" THEN <<"m", "a", "p">> ELSE <<"s", "c", "a", "l", "a", "r">>
+\* a path given as a value: a sequence of strings (keys) and integers (indices) -> the traversal expression
+IsPathValue(v) == v.k = "seq" /\ \A i \in DOMAIN v.e : v.e[i].k = "str" \/ (v.e[i].k = "num" /\ v.e[i].int)
+StepExpr(x) == IF x.k = "str" THEN EPath(x.s) ELSE EIndex(x.n)
+PathToExpr(v) == FoldLeft(LAMBDA acc, x : IF acc.op = "SELF" THEN StepExpr(x) ELSE EPipe(acc, StepExpr(x)), ESelf, v.e)
+\* a container that holds nothing but nulls may have been created on the way by a traversal of a null (auto-creation);
+\* the pinned suite fixes that such a container has NO tag until it is printed, so its `tag` is left open
+RECURSIVE OnlyNulls(_)
+OnlyNulls(v) == CASE v.k = "null" -> TRUE [] v.k = "seq" -> \A i \in DOMAIN v.e : OnlyNulls(v.e[i]) [] v.k = "map" -> \A i \in DOMAIN v.m : OnlyNulls(v.m[i][2]) [] OTHER -> FALSE
+EvExt(e, s) ==
+  CASE e.op = "GET_TAG"  -> \* containers built by operators (pivot, ...) are not all tagged either: only containers of the document are decided
+                            IF \E i \in DOMAIN s.ctx : LET v == ValOf(s.doc, s.ctx[i]) IN IsContainer(v) /\ (OnlyNulls(v) \/ ~s.ctx[i].in) THEN Fail(s, "unspec")
+                            ELSE [s EXCEPT !.ctx = [i \in DOMAIN s.ctx |-> Det(StrV(TagOf(ValOf(s.doc, s.ctx[i]))))]]
+    [] e.op = "GET_KIND" -> [s EXCEPT !.ctx = [i \in DOMAIN s.ctx |-> Det(StrV(KindOf(ValOf(s.doc, s.ctx[i]))))]]
+    [] e.op = "TO_STRING" ->
+         IF \E i \in DOMAIN s.ctx : LET v == ValOf(s.doc, s.ctx[i]) IN IsContainer(v) \/ (v.k = "num" /\ ~v.int) THEN Fail(s, "unspec")   \* containers print as YAML text, floats by spelling
+         ELSE [s EXCEPT !.ctx = [i \in DOMAIN s.ctx |-> LET v == ValOf(s.doc, s.ctx[i]) IN
+                 Det(StrV(CASE v.k = "str" -> v.s [] v.k = "num" -> IntAtoms(v.n) [] v.k = "null" -> <<"n", "u", "l", "l">>
+                            [] v.k = "bool" -> (IF v.b THEN <<"t", "r", "u", "e">> ELSE <<"f", "a", "l", "s", "e">>)))]]
+    [] e.op = "TO_NUMBER" ->
+         LET conv(v) == IF v.k = "num" THEN R(v)
+                        ELSE IF v.k # "str" THEN RErr
+                        ELSE IF v.s = <<>> THEN RUnspec
+                        ELSE IF \A j \in DOMAIN v.s : IsDigitAtom(v.s[j]) THEN (IF Len(v.s) > 1 /\ v.s[1] = "0" THEN RUnspec ELSE R(IntV(FoldLeft(LAMBDA acc, a : acc * 10 + DigitVal(a), 0, v.s))))
+                        ELSE IF \E j \in DOMAIN v.s : IsDigitAtom(v.s[j]) THEN RUnspec ELSE RErr
+             rs == [i \in DOMAIN s.ctx |-> conv(ValOf(s.doc, s.ctx[i]))]
+         IN IF \E i \in DOMAIN rs : rs[i].t = "err" THEN Fail(s, "err") ELSE IF \E i \in DOMAIN rs : rs[i].t # "val" THEN Fail(s, "unspec")
+            ELSE [s EXCEPT !.ctx = [i \in DOMAIN rs |-> Det(rs[i].v)]]
+    [] e.op = "PIVOT" ->
+         PerNode(s, LAMBDA acc, c :
+            LET v == ValOf(acc.doc, c) IN
+            IF v.k # "seq" \/ v.e = <<>> THEN Fail(acc, "unspec")
+            ELSE IF \E i \in DOMAIN v.e : IsScalar(v.e[i]) THEN Fail(acc, "err")
+            ELSE IF \A i \in DOMAIN v.e : v.e[i].k = "seq" THEN
+                 LET n == FoldLeft(LAMBDA m, x : Max2(m, Len(x.e)), 0, v.e) IN
+                 Emit(acc, <<Det(SeqV([j \in 1..n |-> SeqV([i \in DOMAIN v.e |-> IF j <= Len(v.e[i].e) THEN v.e[i].e[j] ELSE Null])]))>>)
+            ELSE IF \A i \in DOMAIN v.e : v.e[i].k = "map" THEN
+                 LET keys == FoldLeft(LAMBDA ks, x : FoldLeft(LAMBDA k2, kv : IF \E j \in DOMAIN k2 : k2[j] = kv[1] THEN k2 ELSE Append(k2, kv[1]), ks, x.m), <<>>, v.e) IN
+                 Emit(acc, <<Det(MapV([j \in DOMAIN keys |-> <<keys[j], SeqV([i \in DOMAIN v.e |-> IF HasKey(v.e[i], keys[j]) THEN MapGet(v.e[i], keys[j]) ELSE Null])>>]))>>)
+            ELSE Fail(acc, "unspec"))
+    [] e.op = "SET_PATH" ->
+         \* setpath(p; v): p is evaluated once, read-only, on the whole context and must give ONE path; for every context
+         \* node v is evaluated read-only on it and must give ONE value, which is assigned at the path below the node
+         LET P == Ev(e.l, RO(s)) IN IF ~Ok(P) THEN P ELSE
+         IF Len(P.ctx) # 1 THEN Fail(s, "err")
+         ELSE LET pv == ValOf(P.doc, P.ctx[1]) IN
+              IF pv.k # "seq" THEN Fail(s, "err") ELSE IF ~IsPathValue(pv) THEN Fail(s, "unspec")
+              ELSE LET done == FoldLeft(LAMBDA acc, c : IF ~Ok(acc) THEN acc ELSE
+                                 LET Vv == Ev(e.r, RO([s EXCEPT !.doc = acc.doc, !.ctx = <<c>>])) IN
+                                 IF ~Ok(Vv) THEN Vv ELSE IF Len(Vv.ctx) # 1 THEN Fail(acc, "err")
+                                 ELSE IF Vv.ctx[1].in /\ c.in /\ IsPathPrefix(Vv.ctx[1].p, c.p \o [j \in DOMAIN pv.e |-> IF pv.e[j].k = "str" THEN PK(pv.e[j].s) ELSE PI(pv.e[j].n)])
+                                      THEN Fail(acc, "unspec")     \* a value assigned into itself
+                                 ELSE LET w == Ev([op |-> "ASSIGN", l |-> PathToExpr(pv), r |-> ELit(ValOf(Vv.doc, Vv.ctx[1])), update |-> FALSE], [s EXCEPT !.doc = Vv.doc, !.ctx = <<c>>]) IN
+                                      IF ~Ok(w) THEN w ELSE [acc EXCEPT !.doc = w.doc],
+                               [s EXCEPT !.doc = P.doc], s.ctx)
+                   IN IF ~Ok(done) THEN done ELSE IF \E i \in DOMAIN s.ctx : ~s.ctx[i].in THEN Fail(s, "unspec") ELSE [s EXCEPT !.doc = done.doc]
+    [] e.op = "DEL_PATHS" ->
+         \* delpaths(ps): ps must give ONE sequence of paths; they are deleted one after the other (del(path))
+         LET P == Ev(e.r, RO(s)) IN IF ~Ok(P) THEN P ELSE
+         IF Len(P.ctx) # 1 THEN Fail(s, "err")
+         ELSE LET pv == ValOf(P.doc, P.ctx[1]) IN
+              IF pv.k # "seq" THEN Fail(s, "err")
+              ELSE IF ~P.ctx[1].in /\ e.r.op \notin {"COLLECT", "VALUE"} THEN Fail(s, "unspec")      \* the operator asks for the tag !!seq, which built containers need not carry
+              ELSE IF \E i \in DOMAIN pv.e : pv.e[i].k # "seq" THEN Fail(s, "err")
+              ELSE IF \E i \in DOMAIN pv.e : ~IsPathValue(pv.e[i]) \/ pv.e[i].e = <<>> THEN Fail(s, "unspec")
+              ELSE FoldLeft(LAMBDA acc, x : IF ~Ok(acc) THEN acc ELSE Ev([op |-> "DELETE_CHILD", r |-> PathToExpr(x)], acc), [s EXCEPT !.doc = P.doc], pv.e)
     [] OTHER -> Fail(s, "unspec")
 
 Run(e, doc) == Ev(e, St(doc, <<InDoc(<<>>)>>, FALSE))
